@@ -227,6 +227,71 @@ def _stress(ctx, rep, base):
     rep.evaluations += 2
 
 
+def _flock_gap(ctx, rep, base):
+    """the gap INSIDE one attempt: an acquirer that has opened the lock file but not yet flock()ed it, while others release / acquire.
+    Every placement of {holder releases, third party acquires, holder re-acquires} inside that gap; at no point two holders."""
+    import fcntl as real_fcntl
+    import itertools
+    import datashard.file_lock as flm
+    from datashard.file_lock import FileLock
+
+    class Shim:
+        def __init__(self):
+            self.hook = None
+            self.LOCK_EX, self.LOCK_NB, self.LOCK_UN, self.LOCK_SH = real_fcntl.LOCK_EX, real_fcntl.LOCK_NB, real_fcntl.LOCK_UN, real_fcntl.LOCK_SH
+
+        def flock(self, fd, op):
+            h, self.hook = self.hook, None
+            if h is not None and op & real_fcntl.LOCK_EX:
+                h()
+            return real_fcntl.flock(fd, op)
+
+    shim = Shim()
+    saved = flm.fcntl
+    flm.fcntl = shim
+    try:
+        acts = ["A.release", "C.try", "A.try", "C.release"]
+        n = 0
+        for k in range(0, 4):
+            for seq in itertools.permutations(acts, k):
+                n += 1
+                path = os.path.join(base, f"gap{n}", "m.lock")
+                os.makedirs(os.path.dirname(path))
+                L = {x: FileLock(path, timeout=1.0) for x in "ABC"}
+                L["A"]._try_acquire_once()
+                ino0 = os.stat(path).st_ino
+
+                def inside(seq=seq, L=L):
+                    for a in seq:
+                        who, what = a.split(".")
+                        if what == "release":
+                            L[who].release()
+                        else:
+                            if not L[who].is_held():
+                                L[who]._try_acquire_once()
+                shim.hook = inside
+                L["B"]._try_acquire_once()
+                shim.hook = None
+                holders = [x for x in "ABC" if L[x].is_held()]
+                rep.evaluations += 1
+                rep.nontrivial(["flock-gap", list(seq)])
+                case = {"kind": "flock-gap", "inside_B_open_to_flock": list(seq)}
+                if len(holders) > 1:
+                    rep.violate("C19:flock-two-holders", f"B between open() and flock() while {list(seq)}: holders {holders}", case)
+                try:
+                    ino1 = os.stat(path).st_ino
+                except OSError:
+                    ino1 = None
+                if ino1 != ino0:
+                    rep.violate("C19:lock-file-identity-changed", f"after {list(seq)} the lock path names another inode / nothing: later acquirers do not "
+                                f"exclude the holders of the old one", case)
+                for x in "ABC":
+                    L[x].release()
+        rep.distribution["flock:gap-placements"] += n
+    finally:
+        flm.fcntl = saved
+
+
 # ------------------------------------------------------------------ S3 lock
 
 class _VDatetime(dt.datetime):
@@ -235,6 +300,51 @@ class _VDatetime(dt.datetime):
     @classmethod
     def now(cls, tz=None):
         return dt.datetime.fromtimestamp(cls.clock.t, tz)
+
+
+def _s3_timeout_bound(ctx, rep):
+    """a contender blocked by a live holder for its whole timeout: TimeoutError within the configured bound (+ one poll interval)"""
+    import random as _random
+    import datashard.lock_provider as lpm
+    from datashard.lock_provider import S3LockProvider
+    POLL_MAX = 1.0          # one poll sleep (documented jitter 0.3–0.9 s)
+    for timeout in (1.0, 5.0, 30.0):
+        for seed in range(3 if not ctx.thorough else 12):
+            vt = VTime()
+            fake = fakes3.FakeS3(clock=lambda vt=vt: dt.datetime.fromtimestamp(vt.t, dt.timezone.utc))
+            holder = S3LockProvider(fake, "bkt", "tbl/.locks/metadata.lock", timeout=timeout, lease_seconds=600)
+            waiter = S3LockProvider(fake, "bkt", "tbl/.locks/metadata.lock", timeout=timeout, lease_seconds=600)
+            for p in (holder, waiter):
+                p._start_heartbeat = lambda: None
+                p._stop_heartbeat_thread = lambda: None
+            saved = (lpm.time, dt.datetime, getattr(lpm, "random", None))
+
+            def sleep(s_, vt=vt):
+                vt.t += max(0.0, float(s_))
+            lpm.time = types.SimpleNamespace(time=vt.time, monotonic=vt.monotonic, sleep=sleep)
+            if saved[2] is not None:
+                lpm.random = _random.Random(seed)
+            _VDatetime.clock = vt
+            dt.datetime = _VDatetime
+            try:
+                holder.acquire()
+                t0 = vt.t
+                case = {"kind": "s3-timeout", "timeout": timeout, "jitter_seed": seed}
+                rep.evaluations += 1
+                rep.nontrivial(["s3-timeout", timeout, seed])
+                try:
+                    waiter.acquire()
+                    rep.violate("C19:s3-two-holders", f"acquired while a live holder is inside its lease (timeout {timeout})", case)
+                except TimeoutError:
+                    el = vt.t - t0
+                    if el > timeout + POLL_MAX:
+                        rep.violate("C19:timeout-exceeded", f"S3 lock: TimeoutError after {el:.2f}s (virtual) with timeout {timeout}s", case)
+                    if el < timeout:
+                        rep.violate("C19:timeout-before-deadline", f"S3 lock: TimeoutError after {el:.2f}s with timeout {timeout}s", case)
+            finally:
+                lpm.time, dt.datetime = saved[0], saved[1]
+                if saved[2] is not None:
+                    lpm.random = saved[2]
 
 
 def _s3_case(ctx, rep, rng, model_ok, case_id, directed=None):
@@ -416,7 +526,8 @@ RELEASE_SPANS_TAKEOVER = {
 def run(ctx, model_ok):
     rep = Report()
     rep.rule = ("local: 2–3 FileLock instances (real kernel flock, one process, scheduler-driven attempts / releases / deaths / clock jumps past "
-                "the deadline) + 8-process shared-counter stress + kill-the-holder + timeout measurement; S3: 2–3 S3LockProvider instances on the "
+                "the deadline) + 8-process shared-counter stress + kill-the-holder + timeout measurement + every ordered placement of ≤3 of {holder "
+                "releases, third party attempts, holder re-attempts, third party releases} inside another acquirer's open()→flock() gap; S3: 2–3 S3LockProvider instances on the "
                 "in-memory S3 at request granularity with clock advances past the lease, directed release-spans-takeover schedule first. "
                 "non-trivial = distinct step sequence.")
     base = scratch_dir("c19-")
@@ -428,6 +539,8 @@ def run(ctx, model_ok):
             except sched.Stuck as e:
                 rep.notes.append(f"flock case {i} stuck: {e}")
         _stress(ctx, rep, base)
+        _flock_gap(ctx, rep, base)
+        _s3_timeout_bound(ctx, rep)
         try:
             _s3_case(ctx, rep, rng, model_ok, -1, directed=RELEASE_SPANS_TAKEOVER)
         except sched.Stuck as e:
